@@ -18,9 +18,9 @@ const TRIGGERS: &[(&str, &str, &str)] = &[
     ("undefined-global", "UndefinedGlobalChecker", "local _ug = undefined_xyz_g\n"),
     ("unused", "UnusedChecker", "local unused_v = 1\n"),
     ("syntax-error", "SyntaxErrorChecker", "local sx = = 1\n"),
-    ("doc-syntax-error", "SyntaxErrorChecker", "---@class\nlocal dsx = {}\n"),
+    ("doc-syntax-error", "SyntaxErrorChecker", "---@type\nlocal dsx = 1\n"),
     ("unknown-doc-tag", "UnknownDocTag", "---@foobarbaz hello\nlocal udt = 1\n"),
-    ("incomplete-signature-doc", "IncompleteSignatureDocChecker", "---@param a number\nfunction G_isd(a, b) end\n"),
+    ("incomplete-signature-doc", "IncompleteSignatureDocChecker", "---@param a number\nlocal function isd(a, b) end\nisd(1, 2)\n"),
     ("missing-global-doc", "IncompleteSignatureDocChecker", "function G_mgd(a) end\n"),
     ("non-literal-expressions-in-assert", "NonLiteralExpressionsInAssertChecker", "local nle = assert(G_nle1, G_nle2())\n"),
     ("iter-variable-reassign", "LocalConstReassignChecker", "for ivr = 1, 2 do ivr = 3 end\n"),
